@@ -23,7 +23,7 @@ def depends(roots, block):
     for n in sorted(topo(roots, defs=True), key=lambda n: n.id):
         if n.op == 'v':
             d = core.CTX.atoms[n.val].get('defn')
-            dep[n.id] = (n.val in block) or (d is not None and dep.get(d[1].id, False))
+            dep[n.id] = (n.val in block) or any(dep.get(x.id, False) for x in core.defn_nodes(d))
         else:
             dep[n.id] = any(dep[a.id] for a in n.args)
     return dep
@@ -168,7 +168,8 @@ def reduce_numer(p, expand=False):
             return p
         # later-created atoms first (their radicand may mention earlier ones)
         name, vid = max(sq, key=lambda t: int(t[0].split('@')[1]))
-        A, B = convert(core.CTX.atoms[name]['defn'][1], expand)
+        rad = convert(core.CTX.atoms[name]['defn'][1], expand)
+        A, B = rad.n, rad.den_poly()
         parts = rf.split_by_var(p, vid)
         maxj = max(parts)
         new = {}
@@ -188,7 +189,7 @@ def prove_zero(node, expand=False, budget_s=30.0):
     t0 = time.time()
     rf.set_budget(budget_s)
     try:
-        n, d = convert(node, expand)
+        n = convert(node, expand).n
         if n:
             n = reduce_numer(n, expand)
     except rf.BudgetExceeded as e:
@@ -304,37 +305,58 @@ def _var_kinds():
     return strict, nonneg
 
 
-def sign_certificate(node, expand=False):
+def sign_certificate(node, expand=False, factor=True):
     """Try to certify the sign of node from the coefficient signs of its normal
     form over the declared-nonnegative atoms (variables of unknown sign may occur
     to even powers).  Returns '>0', '>=0', '<0', '<=0', '==0' or None."""
     try:
-        n, d = convert(node, expand)
+        fr = convert(node, expand)
     except ZeroDivisionError:
         return None
+    n = fr.n
     if n:
         n = reduce_numer(n, expand)
     if not n:
         return '==0'
-    d = reduce_numer(d, expand)
     strict, nonneg = _var_kinds()
     sn = _poly_sign(n, strict, nonneg)
-    sd = _poly_sign(d, strict, nonneg)
-    if sn is None:
+    if sn is None and factor:
         sn = _factored_sign(n, strict, nonneg)
-    if sd is None:
-        sd = _factored_sign(d, strict, nonneg)
-    if sn is None or sd is None or sd[0] == '0' or not sd[1]:
+    if sn is None:
         return None
-    positive = (sn[0] == sd[0])
+    # denominator: c > 0, monomial and factors signed one by one
+    dpos, dstrict = True, True
+    parts = [(_mono_poly(fr.m), 1)] if fr.m else []
+    parts += [(p, e) for p, e in fr.f.values()]
+    for p, e in parts:
+        p = reduce_numer(p, expand)
+        sd = _poly_sign(p, strict, nonneg)
+        if sd is None and factor:
+            sd = _factored_sign(p, strict, nonneg)
+        if sd is None:
+            if e % 2 == 0:
+                dstrict = False
+                continue
+            return None
+        if sd[0] == '0' or not sd[1]:
+            return None
+        if sd[0] == '-' and e % 2 == 1:
+            dpos = not dpos
+    if not dstrict:
+        return None
+    positive = ((sn[0] == '+') == dpos)
     if sn[1]:
         return '>0' if positive else '<0'
     return '>=0' if positive else '<=0'
 
 
+def _mono_poly(md):
+    return {tuple(sorted((v, e) for v, e in md.items() if e)): 1}
+
+
 def _factored_sign(p, strict, nonneg):
     """sign through sympy factorisation: even powers of anything are >= 0"""
-    if len(p) > 400:
+    if len(p) > 80:
         return None
     try:
         import sympy
@@ -369,11 +391,11 @@ def _factored_sign(p, strict, nonneg):
     return ('+' if sign > 0 else '-', strict_all)
 
 
-def certify_cmp(b):
+def certify_cmp(b, factor=True):
     """truth of a comparison node by sign certificate: True / False / None."""
     if b.op not in ('lt', 'le', 'gt', 'ge', 'eq', 'ne'):
         return None
-    s = sign_certificate(core.sub(b.args[0], b.args[1]))
+    s = sign_certificate(core.sub(b.args[0], b.args[1]), factor=factor)
     if s is None:
         return None
     table = {
